@@ -40,7 +40,7 @@ def main(tier, seed):
         if kind == 'harness-failure':
             ctx.inconcl('harness failure: ' + exc[-300:]); return
         if kind == 'oom':
-            ctx.bump('allocation_limit_aborts'); return
+            ctx.bump('allocation_limit_aborts'); return True
         ctx.violation('%s:%s' % (kind, top), 'SOL round trip died on case %d: %s in %s' % (case, kind, top), dict(cmd=cmd, report=exc))
 
     run.run_sharded(exe, ['--dir', wd], ctx.n(200000, 4000000), on_line, on_death, seed, timeout_per_case=5)
